@@ -16,7 +16,8 @@ RULE = ("Each case = a generated program executed by both endpoints of one assoc
         "API call; datachannel-event matcher; bufferedAmount shadow (bytes accepted by send() minus bytes observed being "
         "handed to SCTP) compared at every sample; bufferedamountlow vs downward crossings. Non-trivial = program has a "
         "close racing with open/ack, or a non-ASCII label, or creates from both sides; distinct = program+fault fingerprint."
-        " close() may also be called from inside the channel's open handler.")
+        " close() may also be called from inside the channel's open handler."
+        " Fault profiles include 'reset-lossy' (85 % of stream reset packets lost for 25-45 s) and 'reset-delayed'; directed shapes re-use an id right after the other side closed the channel.")
 ASSUMPTIONS = [
     "same rig assumptions as C01; bufferedAmount equality is not evaluated in relay mode while a hand-over is suspended",
     "W3C semantics assumed for bufferedAmount after close (not reset): equality is only required while the channel is open",
